@@ -184,6 +184,11 @@ fn run_podstr_n<const N: usize>(case: &Case, full: bool, fill: u8, out: &mut Str
         let name = op[0].as_str();
         let arg = op.get(1).map(|s| unhex(s)).unwrap_or_default();
         let r: Option<String> = guarded(|| match name {
+            "default" => {
+                // the Default value is the empty string: all bytes zero
+                *x = PodStr::<N>::default();
+                "U".to_string()
+            }
             "from" => {
                 *x = PodStr::<N>::from(std::str::from_utf8(&arg).expect("case error"));
                 "U".to_string()
